@@ -11,7 +11,7 @@ package llrp
 //   rt <tree>         -> ok <hex> <tree-after-decode> <hex-after-reencode> | err | panic
 //   json <tree>       -> ok <tree-after-json-roundtrip> | err | panic
 //   selftest          -> ok <n containers> | bad <what cannot be instantiated / does not fit the table>
-// Every request runs under a watchdog ($VERIF_CODEC_WATCHDOG_MS, default 5000): on expiry the answer is
+// Every request runs under a watchdog ($VERIF_CODEC_WATCHDOG_MS, default 3000): on expiry the answer is
 // `hang`, all remaining requests are answered `skipped`, and the process exits (status 3).
 // A request that is itself unusable (syntax, unknown container, tree not of the container's
 // shape, number that does not fit the Go field) is answered `bad <reason>`; that is a harness-level
@@ -922,7 +922,7 @@ func TestVerifCodec(t *testing.T) {
 	if err != nil {
 		t.Fatal(err)
 	}
-	wd := 5 * time.Second
+	wd := 3 * time.Second
 	if ms, err := strconv.Atoi(os.Getenv("VERIF_CODEC_WATCHDOG_MS")); err == nil && ms > 0 {
 		wd = time.Duration(ms) * time.Millisecond
 	}
